@@ -1459,3 +1459,190 @@ Section QuatMetric.
         assert (Hz : c = 0) by lra. rewrite Hz, acos_0. field.
   Qed.
 End QuatMetric.
+
+(* =================================================================================================
+   J. label table; what is on disk
+   ================================================================================================= *)
+Lemma col_prefix_no_blank : forall c, no_blank (col_prefix c) /\ (length (col_prefix c) <= 11)%nat.
+Proof. intros c. destruct c; cbn [col_prefix length]; split; try lia; unfold no_blank; repeat (constructor; try discriminate). Qed.
+
+(* a name that fits: the label is the column's prefix followed by the object's name *)
+Lemma col_label_short : forall vname bname c,
+  let name := match col_object c with inl v => vname v | inr b => bname b end in
+  no_blank name -> (length (col_prefix c) + length name <= 21)%nat ->
+  col_label vname bname c = col_prefix c ++ name.
+Proof.
+  intros vname bname c name Hn Hl. unfold col_label. fold name.
+  apply label_token_short; [apply col_prefix_no_blank|exact Hn|exact Hl].
+Qed.
+
+Section DiskBuffer.
+  Context {L : Type}.
+
+  Lemma buf_run_invariant : forall (evs : list (bevent L)) disk buf,
+    let '(d, b) := buf_run disk buf evs in d ++ b = disk ++ buf ++ blines evs.
+  Proof.
+    induction evs as [|e evs IH]; intros disk buf.
+    - cbn [buf_run blines flat_map]. rewrite app_nil_r. reflexivity.
+    - destruct e as [l| |n]; cbn [buf_run].
+      + specialize (IH disk (buf ++ [l])). destruct (buf_run disk (buf ++ [l]) evs) as [d b]. rewrite IH.
+        unfold blines. cbn [flat_map]. rewrite <- !app_assoc. reflexivity.
+      + specialize (IH (disk ++ buf) []). destruct (buf_run (disk ++ buf) [] evs) as [d b]. rewrite IH.
+        unfold blines. cbn [flat_map app]. rewrite <- app_assoc. reflexivity.
+      + specialize (IH (disk ++ firstn n buf) (skipn n buf)). destruct (buf_run (disk ++ firstn n buf) (skipn n buf) evs) as [d b].
+        rewrite IH. unfold blines. cbn [flat_map app]. rewrite <- !app_assoc, (app_assoc (firstn n buf)), firstn_skipn. reflexivity.
+  Qed.
+
+  (* the disk only grows *)
+  Lemma buf_run_disk_grows : forall (evs : list (bevent L)) disk buf,
+    exists more, fst (buf_run disk buf evs) = disk ++ more.
+  Proof.
+    induction evs as [|e evs IH]; intros disk buf; cbn [buf_run].
+    - exists []. cbn [fst]. rewrite app_nil_r. reflexivity.
+    - destruct e as [l| |n].
+      + apply IH.
+      + destruct (IH (disk ++ buf) []) as [m Hm]. exists (buf ++ m). rewrite Hm, app_assoc. reflexivity.
+      + destruct (IH (disk ++ firstn n buf) (skipn n buf)) as [m Hm]. exists (firstn n buf ++ m). rewrite Hm, app_assoc. reflexivity.
+  Qed.
+
+  (* crash after the events e1, a synchronisation, and then e2 (whatever e2 contains): the disk holds every line written
+     before the synchronisation, followed by a prefix of the later lines; nothing else and nothing out of order *)
+  Lemma disk_after_crash : forall (e1 e2 : list (bevent L)),
+    exists kept lost, fst (buf_run [] [] (e1 ++ BSync :: e2)) = blines e1 ++ kept /\ blines e2 = kept ++ lost.
+  Proof.
+    intros e1 e2.
+    assert (H1 : forall disk buf, buf_run disk buf (e1 ++ BSync :: e2) =
+                                  let '(d, b) := buf_run disk buf e1 in buf_run (d ++ b) [] e2).
+    { induction e1 as [|e e1 IH]; intros disk buf; [reflexivity|]. destruct e; cbn [app buf_run]; apply IH. }
+    rewrite H1. pose proof (buf_run_invariant e1 [] []) as Hi. destruct (buf_run [] [] e1) as [d b]. cbn [app] in Hi. rewrite Hi.
+    pose proof (buf_run_invariant e2 (blines e1) []) as Hj.
+    destruct (buf_run_disk_grows e2 (blines e1) []) as [kept Hk].
+    destruct (buf_run (blines e1) [] e2) as [d2 b2]. cbn [fst] in Hk. cbn [app] in Hj. subst d2.
+    exists kept, b2. split; [reflexivity|]. rewrite <- app_assoc in Hj. apply app_inv_head in Hj. symmetry. exact Hj.
+  Qed.
+End DiskBuffer.
+
+(* the lines of the trajectory model are exactly the lines that go through the stream *)
+Lemma traj_bevents_lines : forall rfreq its s,
+  blines (traj_bevents rfreq s its) = snd (traj_run s (map TCalc its)).
+Proof.
+  intros rfreq its. induction its as [|it its IH]; intros s; [reflexivity|].
+  cbn [traj_bevents map traj_run traj_event]. unfold traj_calc_bevents.
+  destruct (traj_calc s it) as [s1 ls] eqn:E. specialize (IH s1).
+  destruct (traj_run s1 (map TCalc its)) as [s2 l2]. cbn [snd] in *.
+  unfold blines in *. rewrite !flat_map_app, IH. f_equal.
+  rewrite <- (app_nil_r ls) at 2. f_equal.
+  - clear E. induction ls as [|l ls IHl]; [reflexivity|]. cbn [map flat_map app]. f_equal. exact IHl.
+  - destruct (negb (rfreq =? 0)%Z && (it mod rfreq =? 0)%Z); reflexivity.
+Qed.
+
+(* =================================================================================================
+   K. multicolumn grid files
+   ================================================================================================= *)
+Lemma NoDup_app' {A} (l1 l2 : list A) : NoDup l1 -> NoDup l2 -> (forall a, In a l1 -> In a l2 -> False) -> NoDup (l1 ++ l2).
+Proof.
+  induction l1 as [|a l1 IH]; intros H1 H2 Hd; [exact H2|]. cbn [app]. inversion H1 as [|? ? Ha Hl]; subst. constructor.
+  - intros Hin. apply in_app_or in Hin. destruct Hin as [Hin|Hin]; [contradiction|]. apply (Hd a); [left; reflexivity|exact Hin].
+  - apply IH; [exact Hl|exact H2|]. intros b Hb1 Hb2. apply (Hd b); [right; exact Hb1|exact Hb2].
+Qed.
+
+Section Multicol.
+  Context {T : Type} (O : NumOps T).
+
+  Lemma all_indices_length : forall nx, length (all_indices nx) = fold_right Nat.mul 1%nat nx.
+  Proof.
+    induction nx as [|n r IH]; [reflexivity|]. cbn [all_indices fold_right].
+    assert (H : forall k m, length (flat_map (fun i => map (cons i) (all_indices r)) (seq k m)) = (m * length (all_indices r))%nat).
+    { intros k m. revert k. induction m as [|m IHm]; intros k; [reflexivity|].
+      cbn [seq flat_map]. rewrite app_length, map_length, IHm. lia. }
+    rewrite H, IH. reflexivity.
+  Qed.
+
+  Lemma all_indices_shape : forall nx ix, In ix (all_indices nx) <-> Forall2 (fun i n => (i < n)%nat) ix nx.
+  Proof.
+    induction nx as [|n r IH]; intros ix; cbn [all_indices].
+    - split; [intros [<-|[]]; constructor|]. intros H. inversion H. left. reflexivity.
+    - rewrite in_flat_map. split.
+      + intros [i [Hi Hin]]. apply in_seq in Hi. apply in_map_iff in Hin. destruct Hin as [t [<- Ht]].
+        constructor; [lia|]. apply IH. exact Ht.
+      + intros H. inversion H as [|i n' t r' Hlt Hr]; subst. exists i. split; [apply in_seq; lia|].
+        apply in_map_iff. exists t. split; [reflexivity|]. apply IH. exact Hr.
+  Qed.
+
+  Lemma all_indices_nodup : forall nx, NoDup (all_indices nx).
+  Proof.
+    induction nx as [|n r IH]; cbn [all_indices]; [constructor; [intros []|constructor]|].
+    assert (H : forall k m, NoDup (flat_map (fun i => map (cons i) (all_indices r)) (seq k m)) /\
+                            forall ix, In ix (flat_map (fun i => map (cons i) (all_indices r)) (seq k m)) -> exists i t, ix = i :: t /\ (k <= i)%nat).
+    { intros k m. revert k. induction m as [|m IHm]; intros k; cbn [seq flat_map].
+      - split; [constructor|intros ix []].
+      - destruct (IHm (S k)) as [Hnd Hge]. split.
+        + apply NoDup_app'; [apply FinFun.Injective_map_NoDup; [intros a b Hab; inversion Hab; reflexivity|exact IH]|exact Hnd|].
+          intros ix Hin1 Hin2. apply in_map_iff in Hin1. destruct Hin1 as [t [<- _]].
+          destruct (Hge _ Hin2) as [i [t' [Heq Hle]]]. inversion Heq. lia.
+        + intros ix Hin. apply in_app_or in Hin. destruct Hin as [Hin|Hin].
+          * apply in_map_iff in Hin. destruct Hin as [t [<- _]]. exists k, t. split; [reflexivity|lia].
+          * destruct (Hge _ Hin) as [i [t [Heq Hle]]]. exists i, t. split; [exact Heq|lia]. }
+    apply H.
+  Qed.
+
+  (* reading what was written gives back, for every index in order, the record written for it *)
+  Lemma multicol_round_trip : forall nx geom value,
+    read_multicol nx (write_multicol O nx geom value) = map (fun ix => (ix, value ix)) (all_indices nx).
+  Proof.
+    intros nx geom value. unfold read_multicol, write_multicol.
+    assert (H : forall l, flat_map (fun l0 => match l0 with MData _ v => [v] | MBlank => [] end)
+                  (flat_map (fun ix => (if (last ix 1 =? 0)%nat then [MBlank] else []) ++ [MData (coords_of O geom ix) (value ix)]) l)
+                = map value l).
+    { induction l as [|ix l IH]; [reflexivity|]. cbn [flat_map map]. rewrite flat_map_app, IH.
+      destruct (last ix 1 =? 0)%nat; reflexivity. }
+    rewrite H. induction (all_indices nx) as [|ix l IH]; [reflexivity|]. cbn [map combine]. f_equal. exact IH.
+  Qed.
+
+  (* the lines, one index at a time: a blank line exactly before the records whose last index is 0; each record carries
+     the bin centres of its index *)
+  Lemma multicol_lines : forall nx geom value,
+    write_multicol O nx geom value =
+    flat_map (fun ix => (if (last ix 1 =? 0)%nat then [MBlank] else []) ++ [MData (coords_of O geom ix) (value ix)]) (all_indices nx).
+  Proof. reflexivity. Qed.
+End Multicol.
+
+(* =================================================================================================
+   L. total force with forces delivered one evaluation late
+   ================================================================================================= *)
+Section LaggedForce.
+  Context {T : Type} (O : NumOps T).
+
+  (* after any non-empty history the bookkeeping is that of the last evaluation *)
+  Lemma lf_run_last : forall (h : list (nat * bool * T)) (s : @lfstate T) rel en (f : T),
+    let s' := lf_run s (h ++ [(rel, en, f)]) in
+    lf_prev s' = Some rel /\ lf_prev_calc s' = en /\ lf_engine s' = f.
+  Proof.
+    intros h s rel en f. unfold lf_run. rewrite fold_left_app. cbn [fold_left lf_step].
+    cbn [lf_prev lf_prev_calc lf_engine]. repeat split.
+  Qed.
+
+  (* the ft_ value at an evaluation (rel, enabled) that follows an evaluation (rel', enabled', f'):
+     if rel > 0, rel - 1 <= rel' (previous or same step) and the calculation was on at both, it is f', the force exerted
+     at the previous evaluation; otherwise it is what it was before (0 for a variable that never had one) *)
+  Lemma lagged_force_rule : forall (h : list (nat * bool * T)) (s : @lfstate T) rel' en' (f' : T) rel en (f : T),
+    lf_ft (lf_run s (h ++ [(rel', en', f'); (rel, en, f)])) =
+    if ((0 <? rel) && (rel - 1 <=? rel') && en' && en)%nat%bool then f'
+    else lf_ft (lf_run s (h ++ [(rel', en', f')])).
+  Proof.
+    intros h s rel' en' f' rel en f.
+    replace (h ++ [(rel', en', f'); (rel, en, f)]) with ((h ++ [(rel', en', f')]) ++ [(rel, en, f)]) by (rewrite <- app_assoc; reflexivity).
+    destruct (lf_run_last h s rel' en' f') as [Hp [Hc He]].
+    set (s1 := lf_run s (h ++ [(rel', en', f')])) in *.
+    unfold lf_run at 1. rewrite fold_left_app. fold (lf_run s (h ++ [(rel', en', f')])). fold s1.
+    cbn [fold_left lf_step lf_ft]. unfold lf_available. rewrite Hp, Hc, He.
+    destruct (0 <? rel)%nat, (rel - 1 <=? rel')%nat, en', en; reflexivity.
+  Qed.
+
+  (* first evaluation after the request (the calculation was off at the previous evaluation): nothing is collected *)
+  Lemma lagged_force_first_request : forall (h : list (nat * bool * T)) (s : @lfstate T) rel' (f' : T) rel en (f : T),
+    lf_ft (lf_run s (h ++ [(rel', false, f'); (rel, en, f)])) = lf_ft (lf_run s (h ++ [(rel', false, f')])).
+  Proof.
+    intros. rewrite lagged_force_rule. destruct (0 <? rel)%nat, (rel - 1 <=? rel')%nat; reflexivity.
+  Qed.
+End LaggedForce.
